@@ -99,6 +99,13 @@ rv('P', r"FilterUnit::<'a, R>::require_entry \| panic\(debug_assert\)", 'contrac
 LR = [{'fn': 'read::line::LineProgramHeader::<R, Offset>::parse', 'cmp': ['line_range', 'const:0']}]
 rv('P', r'^read::line::LineRow::exec_special_opcode \| (RemainderByZero|DivisionByZero)', 'validator',
    'LineProgramHeader::parse rejects line_range == 0 before storing the header', LR)
+MO = [{'fn': 'read::line::LineProgramHeader::<R, Offset>::parse', 'cmp': ['maximum_operations_per_instruction', 'const:0']}]
+rv('P', r'^read::line::LineRow::apply_operation_advance \| divcall\(Wrapping::(rem|div)\)', 'validator',
+   'LineProgramHeader::parse rejects maximum_operations_per_instruction == 0 before storing the header (headers are only built by parse)', MO)
+rv('P', r'^write::unit::(Unit|UnitTable)::get_mut \| index \| self\.(entries|units)\[id\.index\]', 'contract',
+   CONTRACT + 'documented `# Panics` for an invalid id; UnitId/UnitEntryId have private fields and are produced only by this table\'s own add/reserve functions, the converters pass back ids they obtained from them')
+rv('P', r"^write::unit::convert::ConvertUnitSection::<'a, R>::new_with_filter \| index \| offsets\[Range", 'invariant',
+   INV + 'start is the previous end and end only grows while offsets.get(end) is Some, so start <= end <= offsets.len()')
 rv('P', r'^read::line::LineRow::execute \| DivisionByZero', 'validator', 'LineProgramHeader::parse rejects line_range == 0 before storing the header', LR)
 rv('P', r'^read::line::parse_(directory|file)_v5 \| unwrap \| path_name', 'validator',
    'FileEntryFormat::parse rejects formats whose DW_LNCT_path count is not exactly 1, so the loop always assigns path_name',
